@@ -111,6 +111,9 @@ type Sim struct {
 	simElapsed time.Duration
 
 	Viol *Violation
+	// Soft violations do not stop the run (used for defects that would
+	// otherwise mask everything behind them); reported like any other.
+	Soft []*Violation
 
 	StepHook func()
 	stepCh   atomic.Int64 // progress counter for the watchdog
@@ -540,3 +543,18 @@ func (s *Sim) Violate(prop, class string, sig map[string]any, format string, a .
 
 // SimElapsed is the simulated time covered so far.
 func (s *Sim) SimElapsed() time.Duration { return time.Since(s.SimStart) }
+
+// ViolateSoft records a violation without ending the run; duplicates (same
+// class and signature) are recorded once.
+func (s *Sim) ViolateSoft(prop, class string, sig map[string]any, format string, a ...any) {
+	s.mu.Lock()
+	defer s.mu.Unlock()
+	key := class + fmt.Sprint(sig)
+	for _, v := range s.Soft {
+		if v.Class+fmt.Sprint(v.Signature) == key {
+			return
+		}
+	}
+	s.Soft = append(s.Soft, &Violation{Property: prop, Class: class, Signature: sig, Message: fmt.Sprintf(format, a...)})
+	s.record("SOFT-VIOLATION " + class)
+}
